@@ -36,6 +36,8 @@ type c28env struct {
 	gTx       *common.VersionedTransaction
 	topo      uint64
 	mainnet   bool
+	custodian common.Address
+	gns       *common.Genesis
 }
 
 var c28single *c28env
@@ -99,7 +101,7 @@ func c28setup(st *State) *c28env {
 	if err != nil {
 		panic(err)
 	}
-	e := &c28env{store: store, node: node, netId: node.VerifC28NetworkId()}
+	e := &c28env{store: store, node: node, netId: node.VerifC28NetworkId(), custodian: addr("domain", 0), gns: gns}
 	e.mainnetId, err = crypto.HashFromString(config.KernelNetworkId)
 	if err != nil {
 		panic(err)
@@ -126,6 +128,13 @@ func c28h(b [32]byte) string { return fmt.Sprintf("%x", b[:]) }
 // `+`-joined list of L (sole transaction of the store's last consensus snapshot), G (genesis
 // consensus transaction), X<n> (unrelated hash) or `-` for none.
 func c28tx(e *c28env, spec string) *common.VersionedTransaction {
+	if strings.HasPrefix(spec, "#") { // a transaction declared by `def` / `defg` (c28_vst.go)
+		tx := c28defs[spec]
+		if tx == nil {
+			panic("harness: c28 undeclared transaction " + spec)
+		}
+		return tx
+	}
 	p := strings.Split(spec, ".")
 	if len(p) != 3 {
 		panic("harness: c28 tx spec " + spec)
@@ -177,34 +186,45 @@ func c28tx(e *c28env, spec string) *common.VersionedTransaction {
 	case "noout":
 		in.Mint = mint
 		tx.Outputs = nil
+	case "vmint", "vdeposit": // transactions that pass tx.Validate (c28_vst.go)
+		return c28validTx(e, class, nonce, p[2])
 	default:
 		panic("harness: c28 tx class " + class)
 	}
-	if p[2] != "-" {
-		for _, r := range strings.Split(p[2], "+") {
-			switch {
-			case r == "L":
-				// resolved from the raw records (ReadLastConsensusSnapshot may panic on a malformed tail)
-				ref := h("nolast")
-				if _, snaps, _ := e.store.VerifC28ConsensusSnapshotRecords(); len(snaps) > 0 {
-					var sh crypto.Hash
-					copy(sh[:], snaps[len(snaps)-1])
-					if last, _ := e.store.ReadSnapshot(sh); last != nil && len(last.Transactions) > 0 {
-						ref = last.Transactions[0]
-					}
-				}
-				tx.References = append(tx.References, ref)
-			case r == "G":
-				tx.References = append(tx.References, e.gTx.PayloadHash())
-			case strings.HasPrefix(r, "X"):
-				tx.References = append(tx.References, crypto.Blake3Hash([]byte("c28ref"+r)))
-			default:
-				panic("harness: c28 ref " + r)
-			}
-		}
-	}
+	tx.References = c28resolveRefs(e, p[2], h("nolast"))
 	tx.Extra = []byte(nonce)
 	return tx.AsVersioned()
+}
+
+// c28resolveRefs turns a `+`-joined reference spec into hashes: L = sole transaction of the
+// store's last consensus record, G = genesis consensus transaction, X<n> = unrelated hash.
+func c28resolveRefs(e *c28env, spec string, nolast crypto.Hash) []crypto.Hash {
+	var refs []crypto.Hash
+	if spec == "-" {
+		return nil
+	}
+	for _, r := range strings.Split(spec, "+") {
+		switch {
+		case r == "L":
+			// resolved from the raw records (ReadLastConsensusSnapshot may panic on a malformed tail)
+			ref := nolast
+			if _, snaps, _ := e.store.VerifC28ConsensusSnapshotRecords(); len(snaps) > 0 {
+				var sh crypto.Hash
+				copy(sh[:], snaps[len(snaps)-1])
+				if last, _ := e.store.ReadSnapshot(sh); last != nil && len(last.Transactions) > 0 {
+					ref = last.Transactions[0]
+				}
+			}
+			refs = append(refs, ref)
+		case r == "G":
+			refs = append(refs, e.gTx.PayloadHash())
+		case strings.HasPrefix(r, "X"):
+			refs = append(refs, crypto.Blake3Hash([]byte("c28ref"+r)))
+		default:
+			panic("harness: c28 ref " + r)
+		}
+	}
+	return refs
 }
 
 func c28desc(tx *common.VersionedTransaction) string {
@@ -362,6 +382,7 @@ func c28exec(st *State, line string) Result {
 			panic(err)
 		}
 		res.Out, res.LeanIn = "ok", "reset"
+		c28defs = map[string]*common.VersionedTransaction{}
 	case "mode":
 		setMode(f[1] == "1")
 		res.Out = "ok"
